@@ -92,6 +92,8 @@ class KInterp:
         self.pit = {}            # (pit, rowkey, idxmod, col) -> value written during interpretation
         self.pit_order = []
         self.res_writes = []     # stores into result tables
+        self.pit_fullinit = {}   # pit name -> template text, once `pit[:, :] = ...` was executed
+        self.user_data_writes = []   # in-place stores into arrays that alias a user table column
 
     # ------------------------------------------------------------------ entry
     def run(self, fi, args=None, param_syms=None):
@@ -362,6 +364,14 @@ class KInterp:
                     v = self.eval(value_expr, st)
                 env[name] = self._select(G, v, old) if not G.is_true() else v
                 return
+            if isinstance(sl, ast.Tuple) and len(sl.elts) == 2 and all(
+                    isinstance(x, ast.Slice) and x.lower is None and x.upper is None for x in sl.elts):
+                # pit[:, :] = row template: every column of these rows is initialised
+                pit = self._pitname(old, t.value)
+                self.pit_fullinit[pit] = U(value_expr) if value_expr is not None else "<value>"
+                for k_ in [k_ for k_ in self.pit if k_[0] == pit and k_[1] == OWN]:
+                    del self.pit[k_]
+                return
             if isinstance(sl, ast.Tuple) and len(sl.elts) == 2 and self._resolve_col(sl.elts[1], st) is not None:
                 colr = self._resolve_col(sl.elts[1], st)
                 pit = self._pitname(old, t.value)
@@ -391,6 +401,11 @@ class KInterp:
                 self._pit_write(pit, rk, colr, self._as_num(v), G, mask)
                 return
             idx = self.eval(sl, st)
+            if isinstance(old, GExpr) and old.plain() is not None and any(
+                    a_[0] == "sym" and len(a_) > 1 and a_[1] == "tbl" for a_ in old.plain().atoms()) \
+                    and old.plain().single_term() is not None and old.plain().single_term()[1] == 1 \
+                    and len(old.plain().single_term()[0]) == 1:
+                self.user_data_writes.append({"target": U(t), "alias_of": str(old), "fi": st["fi"], "node": t})
             if isinstance(idx, BExpr):
                 # numpy masked store
                 st2 = dict(st, mask=idx)
@@ -527,9 +542,14 @@ class KInterp:
             r = self.ix.resolve_in(st["fi"], e.id)
             if r and r[0] == "value":
                 try:
-                    return self._lift_const(self.ix.eval_const(r[2], r[1]))
+                    v_ = self._lift_const(self.ix.eval_const(r[2], r[1]))
                 except AnalysisError:
-                    pass
+                    v_ = None
+                if v_ is not None:
+                    cr = self._resolve_col(e, st)
+                    if cr is not None and isinstance(v_, GExpr):
+                        v_ = ColRef(v_.cases, cr)
+                    return v_
             if self.free_syms:
                 return GExpr.of(Poly.sym(e.id))
             raise Unsupported("free name %s in %s" % (e.id, st["fi"].qualname))
@@ -667,6 +687,19 @@ class KInterp:
     def _compare(self, op, a, b, e, st):
         if isinstance(a, PyVal) and a.v == "<loopvar>" and isinstance(b, LenOf):
             return PyVal("<in-bounds>")
+        if isinstance(op, (ast.In, ast.NotIn)) and isinstance(a, PyVal) and isinstance(b, TableRef):
+            r = True
+            try:
+                ci_ = self.ix.component_by_table(b.name)
+                cols_ = self.ix.method_const(ci_, "get_component_input")
+                if cols_:
+                    r = a.v in [c_[0] for c_ in cols_]
+            except AnalysisError:
+                pass
+            return PyVal(r if isinstance(op, ast.In) else not r)
+        if isinstance(op, (ast.In, ast.NotIn)) and isinstance(a, PyVal) and isinstance(b, Lookup):
+            r = bool(self.consts.get("in:" + b.kind, True))
+            return PyVal(r if isinstance(op, ast.In) else not r)
         if isinstance(op, (ast.In, ast.NotIn)) and isinstance(a, PyVal):
             items = b.v if isinstance(b, PyVal) else b
             if isinstance(items, (list, tuple)) and all(isinstance(x, PyVal) for x in items):
@@ -724,6 +757,8 @@ class KInterp:
     # ------------------------------------------------------------------ subscripts
     def _resolve_col(self, node, st):
         """Name -> (idx module, original constant name) if it is a pit column constant"""
+        if isinstance(node, ast.Name) and isinstance(st["env"].get(node.id), ColRef):
+            return st["env"][node.id].colref
         if isinstance(node, ast.Name):
             r = None
             mi = self.ix.module(st["fi"].module)
@@ -798,6 +833,8 @@ class KInterp:
                 return base.column(k.v)
             if isinstance(k, BExpr):
                 return base.filtered(k)
+            if isinstance(k, GExpr):
+                return base.filtered(self._as_bool(k))
             if isinstance(k, list) and all(isinstance(x, PyVal) for x in k):
                 return [base.column(x.v) for x in k]
             raise Unsupported("table subscript %s" % U(e))
@@ -932,6 +969,8 @@ class KInterp:
             return self.pit[k]
         if rk != OWN and (pit, OWN, colr[0], colr[1]) in self.pit:
             raise Unsupported("gather from pit column %s.%s after it was written" % (pit, colr[1]))
+        if pit in self.pit_fullinit and rk == OWN and colr[1] != "TABLE_IDX":
+            return GExpr.of(0)
         return GExpr.of(col_atom(pit, rk, colr[0], colr[1]))
 
     def _pit_write(self, pit, rk, colr, v, G, mask):
@@ -1026,6 +1065,12 @@ class KInterp:
             if short in ("any", "all"):
                 return AnyOf(self._as_bool(v), short)
             raise Unsupported("reduction %s" % U(e))
+        if f in ("pd.isnull", "pd.isna", "pandas.isnull", "pd.notnull"):
+            v = self._as_num(self.eval(args[0], st))
+            out = BExpr.false()
+            for g_, p_ in v.cases:
+                out = out | (BExpr([g_]) & b_nan(p_))
+            return ~out if f.endswith("notnull") else out
         if isnp or f in ("abs", "max", "min", "len", "range", "bool", "int", "float", "where"):
             if short in ("abs", "absolute", "fabs"):
                 return num(0).map1(lambda p: apply_fn("abs", [p]))
@@ -1205,7 +1250,9 @@ class KInterp:
         sub = KInterp(self.ix, self.consts, self.call_handlers, self.inline, self.opaque_calls, self.free_syms,
                       self.dyn_cls)
         sub.pit, sub.pit_order, sub.res_writes = self.pit, self.pit_order, self.res_writes
-        sub.partial = getattr(self, "partial", False)
+        sub.pit_fullinit = self.pit_fullinit
+        sub.user_data_writes = self.user_data_writes
+        sub.partial = False
         k = sub.run(g, a2)
         self.notes.extend(sub.notes)
         if k.early:
@@ -1252,6 +1299,15 @@ class TableRef:
 class Lookup:
     def __init__(self, kind, table=None):
         self.kind, self.table = kind, table
+
+
+class ColRef(GExpr):
+    """the integer value of a pit column constant that still knows which column it names"""
+    __slots__ = ("colref",)
+
+    def __init__(self, cases, colref):
+        GExpr.__init__(self, cases)
+        self.colref = colref
 
 
 class MaskedView:
